@@ -139,7 +139,8 @@ type Catch struct {
 }
 
 // K: e echo(N) · t throw(Cls,N=site) · rt rethrow · gp host panic · r return(N) · b break · c continue ·
-// l loop(N times, Body) · f call(Body) · y try(N=id, Body, Catches, HasFin, Fin)
+// l loop(N times, Body) · f call(Body) · y try(N=id, Body, Catches, HasFin, Fin) ·
+// cf call of named function g<N> with $n - 1, guarded by `if ($n > 0)` (re-entrant programs)
 type Stmt struct {
 	K       string  `json:"k"`
 	N       int     `json:"n,omitempty"`
@@ -150,10 +151,38 @@ type Stmt struct {
 	Fin     []Stmt  `json:"fin,omitempty"`
 }
 
+// A case with named functions (Fns: g0, g1, …) is re-entrant: every function has one parameter $n, a call
+// passes $n - 1, the top level starts with $n = Depth, and every number a statement prints, returns or puts
+// into an exception message is $n * 1000 + <number>, so that the trace says which activation did it.
 type Case struct {
-	G    Graph  `json:"g"`
-	Prog []Stmt `json:"p"`
-	Tag  string `json:"tag,omitempty"` // where the case came from (enumeration cell / stream)
+	G     Graph    `json:"g"`
+	Prog  []Stmt   `json:"p"`
+	Fns   [][]Stmt `json:"fns,omitempty"`
+	Depth int      `json:"d,omitempty"`
+	Tag   string   `json:"tag,omitempty"` // where the case came from (enumeration cell / stream)
+}
+
+// levelMul: $n * levelMul + number
+const levelMul = 1000
+
+func hasKind(b []Stmt, k string) bool {
+	found := false
+	walk(b, func(s Stmt) {
+		if s.K == k {
+			found = true
+		}
+	})
+	return found
+}
+
+// rec: the case is rendered in the re-entrant form (functions take $n, numbers carry the level)
+func (c Case) rec() bool {
+	return len(c.Fns) > 0 || c.Depth > 0 || hasKind(c.Prog, "cf")
+}
+
+// all statement lists of the case: the top level first, then the named functions
+func (c Case) blocks() [][]Stmt {
+	return append([][]Stmt{c.Prog}, c.Fns...)
 }
 
 func modelBlock(sb *strings.Builder, b []Stmt) {
@@ -175,6 +204,8 @@ func modelBlock(sb *strings.Builder, b []Stmt) {
 			sb.WriteString("f{ ")
 			modelBlock(sb, s.Body)
 			sb.WriteString("} ")
+		case "cf":
+			fmt.Fprintf(sb, "g%d ", s.N)
 		case "y":
 			fmt.Fprintf(sb, "y%d{ ", s.N)
 			modelBlock(sb, s.Body)
@@ -194,9 +225,17 @@ func modelBlock(sb *strings.Builder, b []Stmt) {
 	}
 }
 
+// [n<depth>] <main> [|| <g0> [|| <g1> …]]
 func (c Case) modelProg() string {
 	var sb strings.Builder
+	if c.Depth > 0 {
+		fmt.Fprintf(&sb, "n%d ", c.Depth)
+	}
 	modelBlock(&sb, c.Prog)
+	for _, f := range c.Fns {
+		sb.WriteString("|| ")
+		modelBlock(&sb, f)
+	}
 	return strings.TrimSpace(sb.String())
 }
 
@@ -207,6 +246,23 @@ type renderer struct {
 	funcs []string
 	nfn   int
 	nloop int
+	rec   bool // re-entrant form
+}
+
+// a number as the script writes it where an expression is allowed
+func (r *renderer) num(v int) string {
+	if r.rec {
+		return fmt.Sprintf("$n * %d + %d", levelMul, v)
+	}
+	return strconv.Itoa(v)
+}
+
+// `echo "<prefix><number><suffix>";`
+func (r *renderer) echoNum(prefix string, v int, suffix string) string {
+	if r.rec {
+		return fmt.Sprintf("echo \"%s\", $n * %d + %d, \"%s\";", prefix, levelMul, v, suffix)
+	}
+	return fmt.Sprintf("echo \"%s%d%s\";", prefix, v, suffix)
 }
 
 // cm($e): "<class>:<site>" for an object made by `new K("s<site>")`, "internal" for anything else.
@@ -224,9 +280,13 @@ func (r *renderer) block(sb *strings.Builder, b []Stmt, ind string, catchVar str
 	for _, s := range b {
 		switch s.K {
 		case "e":
-			fmt.Fprintf(sb, "%secho \"m%d;\";\n", ind, s.N)
+			fmt.Fprintf(sb, "%s%s\n", ind, r.echoNum("m", s.N, ";"))
 		case "t":
-			fmt.Fprintf(sb, "%sthrow new %s(\"s%d\");\n", ind, r.g.phpName(s.Cls), s.N)
+			if r.rec {
+				fmt.Fprintf(sb, "%sthrow new %s(\"s\" . (%s));\n", ind, r.g.phpName(s.Cls), r.num(s.N))
+			} else {
+				fmt.Fprintf(sb, "%sthrow new %s(\"s%d\");\n", ind, r.g.phpName(s.Cls), s.N)
+			}
 		case "rt":
 			v := catchVar
 			if v == "" {
@@ -236,7 +296,7 @@ func (r *renderer) block(sb *strings.Builder, b []Stmt, ind string, catchVar str
 		case "gp":
 			fmt.Fprintf(sb, "%sverif_panic();\n", ind)
 		case "r":
-			fmt.Fprintf(sb, "%sreturn %d;\n", ind, s.N)
+			fmt.Fprintf(sb, "%sreturn %s;\n", ind, r.num(s.N))
 		case "b":
 			fmt.Fprintf(sb, "%sbreak;\n", ind)
 		case "c":
@@ -251,13 +311,19 @@ func (r *renderer) block(sb *strings.Builder, b []Stmt, ind string, catchVar str
 			r.nfn++
 			name := fmt.Sprintf("f%d", r.nfn)
 			var fb strings.Builder
-			fmt.Fprintf(&fb, "function %s() {\n", name)
+			param, arg := "", ""
+			if r.rec {
+				param, arg = "$n", "$n" // the anonymous function works for the activation that calls it
+			}
+			fmt.Fprintf(&fb, "function %s(%s) {\n", name, param)
 			r.block(&fb, s.Body, "  ", "")
 			fb.WriteString("}\n")
 			r.funcs = append(r.funcs, fb.String())
-			fmt.Fprintf(sb, "%s$r = %s();\n%secho \"R\", is_int($r) ? $r : \"-\", \";\";\n", ind, name, ind)
+			fmt.Fprintf(sb, "%s$r = %s(%s);\n%secho \"R\", is_int($r) ? $r : \"-\", \";\";\n", ind, name, arg, ind)
+		case "cf":
+			fmt.Fprintf(sb, "%sif ($n > 0) {\n%s  $r = g%d($n - 1);\n%s  echo \"R\", is_int($r) ? $r : \"-\", \";\";\n%s}\n", ind, ind, s.N, ind, ind)
 		case "y":
-			fmt.Fprintf(sb, "%stry {\n%s  echo \"T%d;\";\n", ind, ind, s.N)
+			fmt.Fprintf(sb, "%stry {\n%s  %s\n", ind, ind, r.echoNum("T", s.N, ";"))
 			r.block(sb, s.Body, ind+"  ", catchVar)
 			fmt.Fprintf(sb, "%s}", ind)
 			for k, c := range s.Catches {
@@ -266,12 +332,16 @@ func (r *renderer) block(sb *strings.Builder, b []Stmt, ind string, catchVar str
 					ts = append(ts, r.g.phpName(t))
 				}
 				v := fmt.Sprintf("$e%d", s.N)
-				fmt.Fprintf(sb, " catch (%s %s) {\n%s  echo \"C%d.%d:\", cm(%s), \";\";\n", strings.Join(ts, " | "), v, ind, s.N, k, v)
+				if r.rec {
+					fmt.Fprintf(sb, " catch (%s %s) {\n%s  echo \"C\", %s, \".%d:\", cm(%s), \";\";\n", strings.Join(ts, " | "), v, ind, r.num(s.N), k, v)
+				} else {
+					fmt.Fprintf(sb, " catch (%s %s) {\n%s  echo \"C%d.%d:\", cm(%s), \";\";\n", strings.Join(ts, " | "), v, ind, s.N, k, v)
+				}
 				r.block(sb, c.Body, ind+"  ", v)
 				fmt.Fprintf(sb, "%s}", ind)
 			}
 			if s.HasFin {
-				fmt.Fprintf(sb, " finally {\n%s  echo \"F%d;\";\n", ind, s.N)
+				fmt.Fprintf(sb, " finally {\n%s  %s\n", ind, r.echoNum("F", s.N, ";"))
 				r.block(sb, s.Fin, ind+"  ", catchVar)
 				fmt.Fprintf(sb, "%s}", ind)
 			}
@@ -281,17 +351,31 @@ func (r *renderer) block(sb *strings.Builder, b []Stmt, ind string, catchVar str
 }
 
 func (c Case) script() string {
-	r := &renderer{g: c.G}
+	r := &renderer{g: c.G, rec: c.rec()}
 	var body strings.Builder
 	r.block(&body, c.Prog, "", "")
+	var named []string
+	for k, f := range c.Fns {
+		var fb strings.Builder
+		fmt.Fprintf(&fb, "function g%d($n) {\n", k)
+		r.block(&fb, f, "  ", "")
+		fb.WriteString("}\n")
+		named = append(named, fb.String())
+	}
 	var sb strings.Builder
 	sb.WriteString("<?php\n")
 	sb.WriteString(c.G.php())
 	sb.WriteString(prelude)
+	for _, f := range named {
+		sb.WriteString(f)
+	}
 	// callees are rendered after their callers; declare them in reverse so that every function
 	// exists before the statement that calls it runs
 	for i := len(r.funcs) - 1; i >= 0; i-- {
 		sb.WriteString(r.funcs[i])
+	}
+	if r.rec {
+		fmt.Fprintf(&sb, "$n = %d;\n", c.Depth)
 	}
 	sb.WriteString(body.String())
 	sb.WriteString("echo \"END;\";\n")
@@ -309,6 +393,16 @@ func walk(b []Stmt, f func(s Stmt)) {
 		}
 		walk(s.Fin, f)
 	}
+}
+
+func (c Case) tryDepth() int {
+	d := 0
+	for _, b := range c.blocks() {
+		if x := depthOf(b); x > d {
+			d = x
+		}
+	}
+	return d
 }
 
 func depthOf(b []Stmt) int {
